@@ -39,6 +39,10 @@ type Sys struct {
 	// still open to exactly that content through the SAME state.Database after
 	// whatever was done later (oracle iv: a committed state is immutable)
 	committed []committedState
+	// shadow model of the two storage slots of A0 (oracle v: a read returns the last value written,
+	// wherever transaction ends, intermediate roots, commits and reopen points fall)
+	slot    [2]int64
+	touched [2]bool // written since the object was (re)opened: reading these never goes to the trie
 }
 
 type committedState struct {
@@ -85,15 +89,15 @@ func (s *Sys) Reset() {
 	if err != nil {
 		panic(err)
 	}
-	*s = Sys{alphabet: s.alphabet, r: s.r, table: s.table, db: db, active: st, hist: s.hist[:0]}
+	*s = Sys{alphabet: s.alphabet, r: s.r, table: s.table, db: db, active: st, hist: s.hist[:0], slot: [2]int64{7, 0}}
 }
 
 var menus = map[string][]string{
 	"acct": {"bal(A1)", "nonce(A0)", "store(A0)", "code(A1)", "suicide(A0)", "create(A1)", "preimage"},
 	"val":  {"vcreate(V1)", "vdeposit(V0)", "vstatus(V0)", "dlg+(V0)", "dlg+(V2)", "dlg-(V0)", "dlg-(V2)", "wadd", "wrem", "statreward"},
 	// two slots of one account: deleting one leaves a single sibling that, after a reopen, is not loaded
-	"slots": {"store(A0)", "store0(A0)", "store(A0,s1)", "store0(A0,s1)", "bal(A1)"},
-	"stk":  {"bal(A1)", "dlg+(V2)", "vcreate(V1)", "srec(V1)", "srec(D,V0)", "prel(D,V2)"},
+	"slots": {"store(A0)", "store7(A0)", "store0(A0)", "store(A0,s1)", "store0(A0,s1)"},
+	"stk":   {"bal(A1)", "dlg+(V2)", "vcreate(V1)", "srec(V1)", "srec(D,V0)", "prel(D,V2)"},
 }
 
 func (s *Sys) Enabled() []string {
@@ -130,6 +134,14 @@ func (s *Sys) Apply(op string) string {
 		s.fail(fmt.Sprintf("panic op=%s at=%s msg=%s", op, where, trimNum(msg)), fmt.Sprintf("%s panicked: %s (at %s)", op, msg, where))
 		return ob
 	}
+	if !s.dead {
+		if op == "commit" {
+			s.touched = [2]bool{} // continuing on a freshly reopened (cold) object
+		} else if strings.HasPrefix(op, "copy>copy") {
+			// the copy carries the caches of the original
+		}
+		mc.Catch(func() { s.checkSlots() })
+	}
 	// independence: whatever was done to the active object, the other side of the copy is unchanged
 	if s.passive != nil && !s.dead {
 		var now string
@@ -150,6 +162,7 @@ func full(st *state.StateDB) string { return stx.Observe(st) + " |" + stx.Observ
 func (s *Sys) apply(op string, idx int) string {
 	st := s.active
 	if ob, ok := s.mut.Apply(st, op, idx); ok {
+		s.model(op)
 		return ob
 	}
 	switch op {
@@ -227,6 +240,46 @@ func (s *Sys) apply(op string, idx int) string {
 		panic("harness: unknown op " + op)
 	}
 	return ""
+}
+
+// model advances the shadow model of A0's two slots and compares it with what the active object reads
+// (after suicide the account's storage is no longer compared).
+func (s *Sys) model(op string) {
+	if s.slot[0] < 0 {
+		return // the account self-destructed: its storage is no longer modelled
+	}
+	switch op {
+	case "store(A0)":
+		s.slot[0], s.touched[0] = (s.slot[0]+1)%9, true
+	case "store7(A0)":
+		s.slot[0], s.touched[0] = 7, true
+	case "store0(A0)":
+		s.slot[0], s.touched[0] = 0, true
+	case "store(A0,s1)":
+		s.slot[1], s.touched[1] = (s.slot[1]+1)%3, true
+	case "store0(A0,s1)":
+		s.slot[1], s.touched[1] = 0, true
+	case "suicide(A0)":
+		s.slot = [2]int64{-1, -1}
+	}
+}
+
+// checkSlots compares the slots written since the active object was (re)opened with the shadow model.
+// Only those: they are served from the object's own caches, so the read does not load trie nodes
+// (the harness must not warm the state it explores).
+func (s *Sys) checkSlots() {
+	if s.slot[0] < 0 || s.active == nil {
+		return
+	}
+	for i := 0; i < 2; i++ {
+		if !s.touched[i] {
+			continue
+		}
+		if got := s.active.GetState(stx.Acc[0], stx.Slots[i]).Big().Int64(); got != s.slot[i] {
+			s.fail("a storage slot does not read the last value written", fmt.Sprintf("slot %d reads %d, last written %d", i, got, s.slot[i]))
+		}
+		s.r.Count("slot_reads_compared_with_the_shadow_model", 1)
+	}
 }
 
 // checkOldRoots is oracle (iv): every state committed earlier in this execution
